@@ -10,6 +10,7 @@ package dag
 
 import (
 	"bufio"
+	"bytes"
 	"context"
 	"encoding/binary"
 	"encoding/hex"
@@ -63,6 +64,8 @@ type vc08Op struct {
 	Clock   uint32   `json:"clock"`
 	Val     string   `json:"val,omitempty"`
 	Sus     bool     `json:"sus,omitempty"` // XOR reference check suspended (a leaf is known to be corrupted)
+	Dg      bool     `json:"dg,omitempty"`  // also observe Diagnostics()
+	Save    string   `json:"save,omitempty"` // a notifier's Save fails: "payload" (payload event) or "tx" (transaction event)
 	Xs      []uint32 `json:"xs"`
 	Is      []uint32 `json:"is"`
 	Ws      []uint32 `json:"ws"`
@@ -170,6 +173,29 @@ func (v *vc08Store) Write(ctx context.Context, fn func(stoabs.WriteTx) error, op
 	}, opts...)
 }
 
+// a registered notifier whose Save can be made to fail (a sibling way for the write transaction of Add to roll back)
+var errVc08Save = errors.New("verif: injected notifier save failure")
+
+type vc08Notifier struct {
+	mu   sync.Mutex
+	fail string
+}
+
+func (v *vc08Notifier) Name() string { return "verif-c08" }
+func (v *vc08Notifier) Save(_ stoabs.WriteTx, event Event) error {
+	v.mu.Lock()
+	defer v.mu.Unlock()
+	if (v.fail == "payload" && event.Type == PayloadEventType) || (v.fail == "tx" && event.Type == TransactionEventType) {
+		return errVc08Save
+	}
+	return nil
+}
+func (v *vc08Notifier) Notify(Event)                      {}
+func (v *vc08Notifier) Finished(hash.SHA256Hash) error    { return nil }
+func (v *vc08Notifier) Run() error                        { return nil }
+func (v *vc08Notifier) GetFailedEvents() ([]Event, error) { return nil, nil }
+func (v *vc08Notifier) Close() error                      { return nil }
+
 // ---------------------------------------------------------------- runner
 
 type vc08Known struct {
@@ -190,6 +216,7 @@ type vc08Run struct {
 	db       *vc08Store
 	st       *state
 	signer   nutsCrypto.MemoryJWTSigner
+	notif    *vc08Notifier
 	txs      map[int]*vc08Known
 	byRef    map[hash.SHA256Hash]*vc08Known
 	specs    map[int]*vc08Op // structural description of every transaction of the current history
@@ -215,6 +242,8 @@ func (r *vc08Run) open() {
 	if err := r.st.Configure(core.ServerConfig{}); err != nil {
 		r.t.Fatal(err)
 	}
+	r.notif = &vc08Notifier{}
+	r.st.notifiers.Store(r.notif.Name(), r.notif)
 }
 
 func (r *vc08Run) close() {
@@ -280,6 +309,8 @@ func vc08ErrClass(err error) string {
 		return "err:root-exists"
 	case errors.Is(err, errVc08Injected), errors.Is(err, stoabs.ErrCommitFailed):
 		return "err:commit-failed"
+	case errors.Is(err, errVc08Save):
+		return "err:save-failed"
 	case strings.Contains(err.Error(), "tx.PayloadHash does not match"):
 		return "err:payload-hash-mismatch"
 	}
@@ -298,6 +329,16 @@ func (r *vc08Run) doAdd(op *vc08Op, id int) string {
 	ctx, cancel := context.WithCancel(context.Background())
 	defer cancel()
 	ctx = context.WithValue(ctx, vc08CallKey{}, &vc08Call{id: id, fail: op.Fail, cancel: cancel})
+	if op.Save != "" {
+		r.notif.mu.Lock()
+		r.notif.fail = op.Save
+		r.notif.mu.Unlock()
+		defer func() {
+			r.notif.mu.Lock()
+			r.notif.fail = ""
+			r.notif.mu.Unlock()
+		}()
+	}
 	return vc08ErrClass(r.st.Add(ctx, k.tx, payload))
 }
 
@@ -366,6 +407,7 @@ func (r *vc08Run) sweeps(op *vc08Op) {
 	if op.fullObs || r.rng.Intn(8) == 0 {
 		op.Is = append(op.Is, op.Xs[r.rng.Intn(len(op.Xs))], 4294967295)
 	}
+	op.Dg = op.fullObs || r.rng.Intn(3) == 0
 	a := uint32(r.rng.Intn(int(lc) + 2))
 	op.Ws = []uint32{a, a + uint32(r.rng.Intn(12))}
 	switch r.rng.Intn(10) {
@@ -424,7 +466,50 @@ func (r *vc08Run) observe(op *vc08Op) (string, string) {
 	} else if !head.Empty() {
 		hs = hex.EncodeToString(head[:8])
 	}
-	fmt.Fprintf(&sb, "cnt=%d lc=%d/%d head=%s |", count, memLc, diskLc, hs)
+	fmt.Fprintf(&sb, "cnt=%d lc=%d/%d head=%s", count, memLc, diskLc, hs)
+	if op.Dg {
+		// the public diagnostics: dag_xor, dag_lc_high, transaction_count
+		var dx hash.SHA256Hash
+		var dlc uint32
+		var dcnt uint
+		seen := 0
+		for _, d := range r.st.Diagnostics() {
+			switch d.Name() {
+			case "dag_xor":
+				dx, _ = d.Result().(hash.SHA256Hash)
+				seen++
+			case "dag_lc_high":
+				dlc, _ = d.Result().(uint32)
+				seen++
+			case TransactionCountDiagnostic:
+				dcnt, _ = d.Result().(uint)
+				seen++
+			}
+		}
+		fmt.Fprintf(&sb, " diag=%s/%d/%d", hex.EncodeToString(dx[:]), dlc, dcnt)
+		if seen != 3 {
+			fail("FAIL:diagnostics-missing-entry")
+		}
+		if !op.Sus {
+			var want hash.SHA256Hash
+			for _, k := range S {
+				ref := k.tx.Ref()
+				for i := range want {
+					want[i] ^= ref[i]
+				}
+			}
+			if want != dx {
+				fail("FAIL:diagnostics-xor-differs-from-reference-fold")
+			}
+		}
+		if dlc != maxClock {
+			fail(fmt.Sprintf("FAIL:diagnostics-highest-clock-differs:%d stored-max %d", dlc, maxClock))
+		}
+		if dcnt != uint(len(S)) {
+			fail(fmt.Sprintf("FAIL:diagnostics-count-differs:%d stored %d", dcnt, len(S)))
+		}
+	}
+	sb.WriteString(" |")
 	if count != uint64(len(S)) {
 		fail(fmt.Sprintf("FAIL:count-differs:count %d stored %d", count, len(S)))
 	}
@@ -450,15 +535,18 @@ func (r *vc08Run) observe(op *vc08Op) (string, string) {
 	}
 	for _, c := range op.Xs {
 		x, lc := r.st.XOR(c)
-		fmt.Fprintf(&sb, " X%d=%s@%d", c, hex.EncodeToString(x[:8]), lc)
+		fmt.Fprintf(&sb, " X%d=%s@%d", c, hex.EncodeToString(x[:]), lc)
 		if !op.Sus {
-			want := hash.EmptyHash()
+			var want hash.SHA256Hash // byte-wise, independent of hash.SHA256Hash.Xor
 			for _, k := range S {
 				if k.clock/PageSize <= c/PageSize {
-					want = want.Xor(k.tx.Ref())
+					ref := k.tx.Ref()
+					for i := range want {
+						want[i] ^= ref[i]
+					}
 				}
 			}
-			if !want.Equals(x) {
+			if want != x {
 				fail(fmt.Sprintf("FAIL:xor-differs-from-reference-fold:XOR(%d)", c))
 			}
 		}
@@ -482,7 +570,9 @@ func (r *vc08Run) observe(op *vc08Op) (string, string) {
 				for _, h := range k.idx {
 					want[h].count++
 					want[h].hs ^= k.hk
-					want[h].ks = want[h].ks.Xor(ref)
+					for i := range ref {
+						want[h].ks[i] ^= ref[i]
+					}
 				}
 			}
 		}
@@ -528,7 +618,8 @@ func (r *vc08Run) observe(op *vc08Op) (string, string) {
 			if want[x].clock != want[y].clock {
 				return want[x].clock < want[y].clock
 			}
-			return want[x].tx.Ref().Compare(want[y].tx.Ref()) < 0
+			rx, ry := want[x].tx.Ref(), want[y].tx.Ref()
+			return bytes.Compare(rx[:], ry[:]) < 0
 		})
 		same := len(want) == len(refs)
 		for j := 0; same && j < len(refs); j++ {
@@ -551,6 +642,9 @@ func (r *vc08Run) emit(op *vc08Op, line, orc string) {
 	r.stats[op.Op]++
 	if op.Fail != "" && op.Fail != "none" {
 		r.stats["add-commit-fails:"+op.Fail]++
+	}
+	if op.Save != "" {
+		r.stats["add-save-fails:"+op.Save]++
 	}
 }
 
@@ -662,6 +756,41 @@ func (r *vc08Run) exec(op *vc08Op) {
 			if err != nil {
 				tag = "err:" + err.Error()
 			}
+		case "liveRepair":
+			// the real repair loop: Start() launches the goroutine that calls checkPage on every tick (tick shortened),
+			// two "incorrect state" signals make the circuit red; wait until the XOR root is the reference again
+			S, _ := r.stored()
+			var want hash.SHA256Hash
+			for _, k := range S {
+				ref := k.tx.Ref()
+				for i := range want {
+					want[i] ^= ref[i]
+				}
+			}
+			r.st.xorTreeRepair.ticker.Stop()
+			r.st.xorTreeRepair.ticker = time.NewTicker(2 * time.Millisecond)
+			if err := r.st.Start(); err != nil {
+				tag = "err:" + err.Error()
+				break
+			}
+			r.st.IncorrectStateDetected()
+			r.st.IncorrectStateDetected()
+			deadline := time.Now().Add(15 * time.Second)
+			for {
+				x, _ := r.st.XOR(MaxLamportClock)
+				if x == want {
+					break
+				}
+				if time.Now().After(deadline) {
+					tag = "liveRepair:not-repaired-within-15s"
+					break
+				}
+				time.Sleep(time.Millisecond)
+			}
+			_ = r.st.Shutdown()
+			time.Sleep(5 * time.Millisecond)
+			r.st.xorTreeRepair.mutex.Lock() // no checkPage is running any more
+			r.st.xorTreeRepair.mutex.Unlock()
 		case "signal":
 			r.st.IncorrectStateDetected()
 		case "signalOK":
@@ -838,6 +967,30 @@ func (g *vc08Gen) history(label string, n, width int) {
 				continue
 			}
 			g.ops = append(g.ops, g.newTx(nil, 0))
+		case rare(2): // a notifier's Save fails inside the write transaction (before or after graph.add), then the retry
+			op := g.valid(width)
+			f := *op
+			f.Save = []string{"payload", "tx"}[g.rng.Intn(2)]
+			f.Payload = "ok"
+			g.ops = append(g.ops, &f)
+			if g.rng.Intn(4) > 0 {
+				op.Payload = g.payloadMode()
+				g.ops = append(g.ops, op)
+				g.commit(op)
+			}
+		case rare(1): // many transactions on one clock value (long hash list in the clock shelf)
+			if len(g.added) == 0 {
+				continue
+			}
+			first := g.valid(width)
+			g.ops = append(g.ops, first)
+			g.commit(first)
+			for k := 12 + g.rng.Intn(30); k > 0; k-- {
+				op := g.newTx(first.Pi, first.Clk)
+				op.Payload = g.payloadMode()
+				g.ops = append(g.ops, op)
+				g.commit(op)
+			}
 		case rare(2): // payload does not match, then the right one
 			op := g.valid(width)
 			f := *op
@@ -863,7 +1016,11 @@ func (g *vc08Gen) history(label string, n, width int) {
 			p := uint32(g.rng.Intn(pages))
 			g.ops = append(g.ops, &vc08Op{Op: "corruptDisk", Key: p*PageSize + PageSize/2, Val: vc08RandHex(g.rng)},
 				&vc08Op{Op: "restart", Sus: true, fullObs: true})
-			g.repairCycle(pages)
+			if g.rng.Intn(3) == 0 { // repaired by the real background loop instead of direct checkPage calls
+				g.ops = append(g.ops, &vc08Op{Op: "liveRepair", fullObs: true}, &vc08Op{Op: "restart", fullObs: true})
+			} else {
+				g.repairCycle(pages)
+			}
 		case rare(1): // corrupted XOR leaf in memory, repaired
 			if len(g.added) == 0 {
 				continue
@@ -896,7 +1053,11 @@ func (g *vc08Gen) history(label string, n, width int) {
 				}
 			}
 		case rare(1):
-			g.ops = append(g.ops, &vc08Op{Op: "signal"}, &vc08Op{Op: "signal"}, &vc08Op{Op: "check"}, &vc08Op{Op: "signalOK"})
+			if g.rng.Intn(2) == 0 { // one signal only: the circuit is yellow
+				g.ops = append(g.ops, &vc08Op{Op: "signal"}, &vc08Op{Op: "check"}, &vc08Op{Op: "signalOK"})
+			} else {
+				g.ops = append(g.ops, &vc08Op{Op: "signal"}, &vc08Op{Op: "signal"}, &vc08Op{Op: "check"}, &vc08Op{Op: "signalOK"})
+			}
 		default:
 			op := g.valid(width)
 			op.Payload = g.payloadMode()
@@ -941,7 +1102,7 @@ func (g *vc08Gen) exhaustive(label string, n, width int) {
 		g.commit(op)
 	}
 	for pos := 0; pos < n; pos++ {
-		for _, fault := range []string{"fn", "ctx", "restart", "bad-payload"} {
+		for _, fault := range []string{"fn", "ctx", "restart", "bad-payload", "save-payload", "save-tx"} {
 			g.ops = append(g.ops, &vc08Op{Op: "new", Hist: fmt.Sprintf("%s-pos%d-%s", label, pos, fault)})
 			for i, b := range base {
 				op := &vc08Op{Op: "add", I: i, Pi: b.pi, Clk: b.clk, Payload: "ok", Fail: "none"}
@@ -954,6 +1115,10 @@ func (g *vc08Gen) exhaustive(label string, n, width int) {
 					case "bad-payload":
 						f := *op
 						f.Payload = "bad"
+						g.ops = append(g.ops, &f)
+					case "save-payload", "save-tx":
+						f := *op
+						f.Save = strings.TrimPrefix(fault, "save-")
 						g.ops = append(g.ops, &f)
 					}
 				}
